@@ -2,6 +2,8 @@ import Lemmas.Vc
 import Gen.luhn
 import Gen.verhoeff
 import Gen.iso7064_mod_11_10
+import Gen.iso7064_mod_11_2
+import Gen.damm
 import Gen.iso7064_mod_37_2
 import Gen.iso7064_mod_37_36
 import Gen.iso7064_mod_97_10
@@ -24,6 +26,17 @@ namespace Py
 /-- every program satisfies the trivial triple (used for code inside `try … except Exception`) -/
 theorem any_triple {α : Type} (x : R α) : ⦃⌜True⌝⦄ x ⦃post⟨fun _ => ⌜True⌝, fun _ => ⌜True⌝⟩⦄ :=
   triple_of_holds x _ _ (by unfold Holds; cases x <;> trivial)
+
+/-- add a consequence of `x = ok r` to the success post-condition of a triple -/
+theorem triple_and_of_ok {α : Type} {x : R α} {P Q : α → Prop} {E : Exc → Prop}
+    (h : ⦃⌜True⌝⦄ x ⦃post⟨fun r => ⌜P r⌝, fun e => ⌜E e⌝⟩⦄) (hq : ∀ r, x = .ok r → Q r) :
+    ⦃⌜True⌝⦄ x ⦃post⟨fun r => ⌜P r ∧ Q r⌝, fun e => ⌜E e⌝⟩⦄ := by
+  apply triple_of_holds
+  have h1 := holds_of_triple x P E h
+  unfold Holds at *
+  cases hx : x with
+  | ok a => rw [hx] at h1; exact ⟨h1, hq a hx⟩
+  | error e => rw [hx] at h1; exact h1
 
 end Py
 
@@ -81,10 +94,55 @@ theorem verhoeff_validate_spec (number : Str) :
   mvcgen [Gen.verhoeff.validate, verhoeff_checksum_any, Py.stateT_pure_apply]
   all_goals (clear_jps; simp_all)
 
+private theorem mod_11_10_checksum_nil (n : Str) :
+    ⦃⌜True⌝⦄ Gen.iso7064_mod_11_10.checksum n ⦃post⟨fun r => ⌜True ∧ (n = [] → r = 5)⌝, fun _ => ⌜True⌝⟩⦄ :=
+  triple_and_of_ok (mod_11_10_checksum_any n) (by
+    rintro r h rfl
+    have h0 : Gen.iso7064_mod_11_10.checksum [] = .ok 5 := rfl
+    rw [h0] at h; cases h; rfl)
+
 theorem mod_11_10_validate_spec (number : Str) :
     ⦃⌜True⌝⦄ Gen.iso7064_mod_11_10.validate number
-    ⦃post⟨fun r => ⌜r = number⌝, fun e => ⌜e.isValidation = true⌝⟩⦄ := by
-  mvcgen [Gen.iso7064_mod_11_10.validate, mod_11_10_checksum_any, Py.stateT_pure_apply]
+    ⦃post⟨fun r => ⌜r = number ∧ number ≠ []⌝, fun e => ⌜e.isValidation = true⌝⟩⦄ := by
+  mvcgen [Gen.iso7064_mod_11_10.validate, mod_11_10_checksum_nil, Py.stateT_pure_apply]
+  all_goals (clear_jps; try simp_all)
+  rintro rfl
+  rename_i r _ _ h2 h1
+  have h1 := h1 rfl
+  subst h1
+  exact absurd h2 (by decide)
+
+private theorem mod_11_2_checksum_any (n : Str) :
+    ⦃⌜True⌝⦄ Gen.iso7064_mod_11_2.checksum n ⦃post⟨fun r => ⌜n = [] → r = 0⌝, fun _ => ⌜True⌝⟩⦄ := by
+  apply triple_of_holds
+  unfold Holds
+  cases h : Gen.iso7064_mod_11_2.checksum n with
+  | error e => trivial
+  | ok r =>
+    rintro rfl
+    have : Gen.iso7064_mod_11_2.checksum [] = .ok 0 := rfl
+    rw [this] at h
+    cases h
+    rfl
+private theorem damm_checksum_any (n : Str) (t : Option (List (List Int))) :
+    ⦃⌜True⌝⦄ Gen.damm.checksum n t ⦃post⟨fun _ => ⌜True⌝, fun _ => ⌜True⌝⟩⦄ := any_triple _
+
+theorem mod_11_2_validate_spec (number : Str) :
+    ⦃⌜True⌝⦄ Gen.iso7064_mod_11_2.validate number
+    ⦃post⟨fun r => ⌜r = number ∧ number ≠ []⌝, fun e => ⌜e.isValidation = true⌝⟩⦄ := by
+  mvcgen [Gen.iso7064_mod_11_2.validate, mod_11_2_checksum_any, Py.stateT_pure_apply]
+  all_goals (clear_jps; try simp_all)
+  rename_i h1 _ h2
+  rintro rfl
+  have h1 := h1 rfl
+  subst h1
+  exact absurd h2 (by decide)
+
+theorem damm_validate_spec (number : Str) (table : Option (List (List Int))) :
+    ⦃⌜True⌝⦄ Gen.damm.validate number table
+    ⦃post⟨fun r => ⌜r = number ∧ number ≠ []⌝, fun e => ⌜e.isValidation = true⌝⟩⦄ := by
+  mvcgen [Gen.damm.validate, damm_checksum_any, Py.stateT_pure_apply]
+  all_goals (clear_jps; simp_all)
 
 private theorem mod_37_2_checksum_alpha (n a : Str) :
     ⦃⌜True⌝⦄ Gen.iso7064_mod_37_2.checksum n a ⦃post⟨fun _ => ⌜∀ c ∈ n, a.contains c = true⌝, fun _ => ⌜True⌝⟩⦄ := by
@@ -118,11 +176,24 @@ private theorem mod_37_36_checksum_alpha (n a : Str) :
        · exact (‹strIn _ a = true ∧ _›).1)
 
 /-- what `mod_37_2.validate` accepts consists of characters of the alphabet (every character was looked up) -/
+private theorem mod_37_2_checksum_alpha_nil (n a : Str) :
+    ⦃⌜True⌝⦄ Gen.iso7064_mod_37_2.checksum n a
+    ⦃post⟨fun r => ⌜(∀ c ∈ n, a.contains c = true) ∧ (n = [] → r = 0)⌝, fun _ => ⌜True⌝⟩⦄ :=
+  triple_and_of_ok (mod_37_2_checksum_alpha n a) (by
+    rintro r h rfl
+    have h0 : Gen.iso7064_mod_37_2.checksum [] a = .ok 0 := rfl
+    rw [h0] at h; cases h; rfl)
+
 theorem mod_37_2_validate_spec (number alphabet : Str) :
     ⦃⌜True⌝⦄ Gen.iso7064_mod_37_2.validate number alphabet
-    ⦃post⟨fun r => ⌜r = number ∧ number.all (fun c => alphabet.contains c) = true⌝, fun e => ⌜e.isValidation = true⌝⟩⦄ := by
-  mvcgen [Gen.iso7064_mod_37_2.validate, mod_37_2_checksum_alpha, Py.stateT_pure_apply]
-  all_goals (clear_jps; simp_all [List.all_eq_true])
+    ⦃post⟨fun r => ⌜r = number ∧ number.all (fun c => alphabet.contains c) = true ∧ number ≠ []⌝, fun e => ⌜e.isValidation = true⌝⟩⦄ := by
+  mvcgen [Gen.iso7064_mod_37_2.validate, mod_37_2_checksum_alpha_nil, Py.stateT_pure_apply]
+  all_goals (clear_jps; try simp_all [List.all_eq_true])
+  rintro rfl
+  rename_i r _ _ h2 h1
+  have h1 := h1.2 rfl
+  subst h1
+  exact absurd h2 (by decide)
 
 theorem mod_37_36_validate_spec (number alphabet : Str) :
     ⦃⌜True⌝⦄ Gen.iso7064_mod_37_36.validate number alphabet
@@ -138,10 +209,18 @@ private theorem mod_97_10_checksum_ascii (n : Str) :
 
 /-- `mod_97_10.validate` never raises anything but validation errors; what it accepts is ASCII
 (`.encode('ascii')` inside `_to_base10`) -/
+private theorem mod_97_10_checksum_ascii_nil (n : Str) :
+    ⦃⌜True⌝⦄ Gen.iso7064_mod_97_10.checksum n ⦃post⟨fun _ => ⌜AllIn isAscii n ∧ n ≠ []⌝, fun _ => ⌜True⌝⟩⦄ :=
+  triple_and_of_ok (mod_97_10_checksum_ascii n) (by
+    rintro r h rfl
+    have h0 : (Gen.iso7064_mod_97_10.checksum []).toBool = false := by decide
+    rw [h] at h0
+    exact absurd h0 (by simp [Except.toBool]))
+
 theorem mod_97_10_validate_spec (number : Str) :
     ⦃⌜True⌝⦄ Gen.iso7064_mod_97_10.validate number
-    ⦃post⟨fun r => ⌜r = number ∧ AllIn isAscii number⌝, fun e => ⌜e.isValidation = true⌝⟩⦄ := by
-  mvcgen [Gen.iso7064_mod_97_10.validate, mod_97_10_checksum_ascii, Py.stateT_pure_apply]
+    ⦃post⟨fun r => ⌜r = number ∧ AllIn isAscii number ∧ number ≠ []⌝, fun e => ⌜e.isValidation = true⌝⟩⦄ := by
+  mvcgen [Gen.iso7064_mod_97_10.validate, mod_97_10_checksum_ascii_nil, Py.stateT_pure_apply]
   all_goals (clear_jps; simp_all)
 
 
